@@ -28,25 +28,44 @@ PicksBefore(groups, g) == IF g = 1 THEN 0 ELSE PicksBefore(groups, g - 1) + Len(
 NamesAbsentDc(w, s) ==
   w.strat = "nts" /\ \E dc \in DOMAIN KsRf(w) : KsRf(w)[dc] > 0 /\ ~\E h \in RangeOf(s.members) : w.dc[h] = dc
 
+\* first occurrences only
+RECURSIVE Dedup(_)
+Dedup(seq) == IF seq = <<>> THEN <<>>
+              ELSE LET d == Dedup(SubSeq(seq, 1, Len(seq) - 1)) x == seq[Len(seq)] IN
+                   IF x \in RangeOf(d) THEN d ELSE Append(d, x)
+Dups(seq) == {seq[k] : k \in {j \in 1 .. Len(seq) : \E m \in 1 .. j - 1 : seq[m] = seq[j]}}
+
 GroupVerdict(w, s, groups, g) ==
   LET grp == groups[g]
       cx == QCtx(w, s, grp.q)
       n == Len(grp.picks)
       base == s.npicks + PicksBefore(groups, g)
-      kinds == UNION {PickFailing(w, s, cx, grp.picks[i], grp.capped[i]) : i \in 1 .. n} \cup RotationFailing(w, s, cx, grp.picks)
+      amb == Ambiguous(w, s, grp.q)
+      kinds0 == UNION {PickFailing(w, s, cx, grp.picks[i], grp.capped[i]) : i \in 1 .. n} \cup RotationFailing(w, s, cx, grp.picks)
+      \* ambiguous corner (no placement known): accepted if the predicates hold under either reading
+      kinds == IF kinds0 # {} /\ amb /\
+                  (UNION {PickFailing(w, s, QCtxAlt(w, s, grp.q), grp.picks[i], grp.capped[i]) : i \in 1 .. n}) = {}
+               THEN {} ELSE kinds0
+      \* When the replica list the policy was handed by the placement code (C10) contains a host twice,
+      \* failures are inherited from C10 exactly if the policy did the right thing relative to that
+      \* list: the predicates hold for the de-duplicated real sequence against the de-duplicated list.
+      realdup == ~SeqNoDup(grp.realrep)
+      cx2 == QCtxR(w, s, grp.q, Dedup(grp.realrep))
+      kinds2 == IF ~realdup THEN kinds
+                ELSE UNION {PickFailing(w, s, cx2, Dedup(grp.picks[i]), grp.capped[i]) \cup
+                            (IF Dups(grp.picks[i]) \subseteq Dups(grp.realrep) THEN {} ELSE {"duplicate-offer"})
+                            : i \in 1 .. n}
       known == Known(s)
-      \* (no prediction when the keyspace places no replica in the ring: the property then says nothing
-      \* about a prefix, the driver starts with the token's owner)
-      norep == cx.ta /\ s.ksknown /\ cx.reps = <<>>
-      drift == (IF ~norep /\ \E i \in 1 .. n : Rest(cx, grp.picks[i]) # Rest(cx, Offer(w, s, cx, base + i)) THEN {"order"} ELSE {}) \cup
+      \* (no order is predicted in the ambiguous corner)
+      drift == (IF ~amb /\ \E i \in 1 .. n : Rest(cx, grp.picks[i]) # Rest(cx, Offer(w, s, cx, base + i)) THEN {"order"} ELSE {}) \cup
                (IF \E i \in 1 .. n : \E k \in 1 .. Len(grp.picks[i]) : grp.picks[i][k] # 0 /\ grp.picks[i][k] \notin known
                 THEN {"offers-unknown-host"} ELSE {})
   IN [g |-> g, q |-> grp.q, kinds |-> kinds, drift |-> drift,
-      realdup |-> ~SeqNoDup(grp.realrep),
+      realdup |-> realdup, kinds2 |-> kinds2, realrep |-> grp.realrep,
       emptymid |-> /\ w.pol = "rack" /\ w.nonlocal /\ cx.ta
                    /\ \A h \in RangeOf(cx.reps) : Tier(w, h) # 1
                    /\ \E h \in cx.far : Tier(w, h) = 2,
-      norep |-> norep,
+      ambiguous |-> amb,
       got |-> grp.picks, near |-> cx.near, far |-> cx.far, reps |-> cx.reps,
       predicted |-> [i \in 1 .. n |-> Offer(w, s, cx, base + i)]]
 
